@@ -21,4 +21,8 @@ package loader
 //@   loop 0: invariant -1 <= rangeindex && rangeindex < len(funcs) && same(funcs, funcs0)
 //@   loop 0: invariant offset == len(tab) && len(tab) >= 1 && tab[len(tab) - 1] == 0 && fresh(tab)
 //@   loop 0: invariant len(offs) == len(funcs) && fresh(offs) && base(offs) != base(tab)
-//@   loop 0: invariant len(tab) < 2147483648 ==> (forall k int :: (0 <= k && k <= rangeindex) ==> (1 <= offs[k] && int(offs[k]) < len(tab) && tab[int(offs[k]) - 1] == 0))
+//@   loop 0: invariant forall k int :: (0 <= k && k <= rangeindex && len(tab) < 2147483648) ==> (1 <= offs[k] && int(offs[k]) < len(tab))
+//@   loop 0: invariant forall k int :: (0 <= k && k <= rangeindex && len(tab) < 2147483648) ==> tab[int(offs[k]) - 1] == 0
+//@   loop 0: assert prev(len(tab)) <= len(tab) && (forall j int :: (0 <= j && j < prev(len(tab))) ==> tab[j] == prev(tab[j]))
+//@   loop 0: assert forall k int :: (0 <= k && k < rangeindex) ==> offs[k] == prev(offs[k])
+//@   loop 0: assert len(tab) < 2147483648 ==> int(offs[rangeindex]) == prev(len(tab))
